@@ -48,4 +48,14 @@ try:
 except Exception as e:
     print("C17 crate warm-up failed (the check will rebuild):", e)
 PY
+# warm the ssr crate of C15
+/opt/veriftools/pyvenv/bin/python3 - <<'PY'
+import sys, os
+sys.path.insert(0, os.path.join(os.getcwd(), "lib"))
+import c15
+try:
+    print(c15.run_native([("top", True, "i18n_pref_locale=fr", "de")]))
+except Exception as e:
+    print("C15 crate warm-up failed (the check will rebuild):", e)
+PY
 echo setup done
